@@ -254,6 +254,9 @@ class Prover:
     # ---- facts ---------------------------------------------------------------------------------------
     def cmp_fact(self, term, truth):
         """comparison term with truth value -> list of Lin ≥ 0"""
+        if isinstance(term, tuple) and term[0] == 'term' and term[1] == 'in_range' and len(term[2]) == 3 and truth:
+            x_, lo_, hi_ = self.lin(term[2][0]), self.lin(term[2][1]), self.lin(term[2][2])
+            return [x_.add(lo_, -1), hi_.add(x_, -1)] if None not in (x_, lo_, hi_) else []
         if not (isinstance(term, tuple) and term[0] == 'term' and len(term[2]) == 2):
             return []
         op = term[1]
